@@ -4,8 +4,11 @@ tie A : Gen/Config.v regenerated from configuration.py / controller.py (props/c1
         theorems of Properties/C16.v are about the generated definitions; stream `config_gen`
         validates the generated definitions against the implementation.
 tie B : Model/Catalog.v (hand model) compared with the library on generated structures
-        (streams structure / configure / operators), property oracles evaluated directly on the
-        implementation's output, malformed structures probed by oracle only (stream malformed).
+        (streams structure / configure / operators / history), property oracles evaluated directly on
+        the implementation's output; stream malformed: two Controller objects of one name must be
+        refused wherever they sit, one shared object must stay accepted (model all_controllers, T16j).
+        Stream history: objects are created between moves of the controllers (every entry point) and
+        every object is read after every step without selecting a configuration again.
 """
 import itertools
 import json
@@ -22,16 +25,25 @@ ASSUME = [
     'over it is arbitrary (theorems hold for every permutation)',
     'random.choices (modify_random_controllers) is an arbitrary oracle: theorems hold for every list of known '
     'controller names; the streams replay the recorded outcome',
-    'structures are well formed: one Controller object per controller name, catalogs of one controller list the '
-    'same specification names (checked by Catalog.__init__), specification names pairwise distinct, names free '
-    'of ; and : -- other structures are probed by the stream `malformed` only',
+    'a formula accepted by the library has one Controller object per controller name (T16j: get_all_controllers / '
+    'merge_controllers, extracted from the source, refuse two objects of one name wherever they sit; stream malformed); '
+    'cexpr identifies a controller by its name; catalogs of one controller list the same specification names (checked by '
+    'Catalog.__init__), specification names are pairwise distinct and names are free of ; and :',
+    'histories: every change of a controller goes through Controller.set_index (set_name, reset_selection, '
+    'modify_controller, set_configuration, set_controller, operators, iterator); catalogs and formulas hold no '
+    'selection state of their own -- T16i quantifies over every legal controller state, the stream `history` checks '
+    'the library against it after every step of generated histories',
     'str.split / sorted / dict / set semantics of CPython as modelled in Model/Catalog.v (py_split, py_sorted_sel, '
     'dict_set); strings are ASCII',
 ]
 TRUSTED = [
     'tie A extractor /verif/lib/props/c16_extract.py (py2v for get_string_id, modify_controller with set_index '
     'inlined, the_modification; normalised-AST template match, fail-closed, for the selections setter, '
-    '__check_list_validity, from_string, from_dict, set_index); validated on this run by stream config_gen',
+    '__check_list_validity, from_string, from_dict, set_index, merge_controllers, Controller.__eq__/__hash__/__lt__, '
+    'both get_all_controllers and Expression.set_central_controller (no hand-down)); validated on this run by '
+    'streams config_gen / malformed / history',
+    'object identity of controllers is modelled by an integer per Controller object assigned by the harness '
+    '(skeleton otree)',
     'tie B: hand model Model/Catalog.v, tied by the sampled correspondence streams structure/configure/operators',
     'bio_bridge.expr_to_json (reads the selected member of every catalog) and the harness generators',
 ]
@@ -759,6 +771,8 @@ def check_structure(ctx, sts, idx, case, info, r, items, origin):
         items.append((defs, f'(let cs := central {ename} in let ai := all_ids cs in '
                       f'cexpr_eqb {ename} {ctree_to_coq(r["ctree"])} && wf_cexpr {ename} && '
                       f'wf_ctrls cs && ctrls_eqb cs {impl_ctrls} && '
+                      f'match all_controllers {skeleton(spec["formula"], spec)} with '
+                      f'| Some l => same_set (map fst l) (map fst cs) && nodupb (map fst l) | None => false end && '
                       f'(number_of_configurations cs =? {cz(r.get("number") or 0)}) && '
                       f'same_set (map string_id (product cs)) {coq_strs(impl_ids)} && '
                       f'same_set ai {coq_strs(r.get("ids") or [])} && '
@@ -1415,84 +1429,213 @@ def check_history(ctx, st, rng, hi, hist, objs, known, res, items, origin):
 
 
 # =========================================================================== malformed structures
+def skeleton(node, spec, ids=None, fresh=None):
+    """Gallina otree of a structure: which Controller OBJECT (name, identity) governs each catalog.
+    Identities: one per explicit controller, one per catalog with a default / fresh controller, one
+    per controller created by a helper call."""
+    ids = ids if ids is not None else {}
+    fresh = fresh if fresh is not None else [1000]
+
+    def oid(key):
+        if key not in ids:
+            ids[key] = len(ids) + 1
+        return ids[key]
+
+    def new():
+        fresh[0] += 1
+        return fresh[0]
+
+    def go(n):
+        t = n['t']
+        if t == 'cat':
+            if n.get('ctrl') is None:
+                c = (n['name'], new())
+            elif n.get('fresh_ctrl'):
+                c = (n['ctrl'], new())
+            else:
+                c = (n['ctrl'], oid(('explicit', n['ctrl'])))
+            return f'(OCat ({coq_string(c[0])}, {cz(c[1])}) {coq_list([go(m) for _, m in n["m"]])})'
+        if t == 'seg':
+            h = spec['helpers'][n['h']]
+            leafs = coq_list(['(ONode [])' for _ in py_seg_catalog(h, h['betas'][n['b']])['m']])
+            return f'(OCat ({coq_string(h["gname"])}, {cz(oid(("helper", n["h"], "seg")))}) {leafs})'
+        if t == 'gas':
+            h = spec['helpers'][n['h']]
+            if h['segs']:
+                k = len(py_seg_catalog(h, h['betas'][n['b']])['m'])
+                inner = f'(OCat ({coq_string(h["gname"])}, {cz(oid(("helper", n["h"], "seg")))}) {coq_list(["(ONode [])"] * k)})'
+            else:
+                inner = '(ONode [])'
+            return (f'(OCat ({coq_string(h["gname"] + "_gen_altspec")}, {cz(oid(("helper", n["h"], "gas")))}) '
+                    f'[{inner}; {inner}])')
+        kids = [go(k) for k in children(n)]
+        if all(k == '(ONode [])' for k in kids):
+            return '(ONode [])'
+        return f'(ONode {coq_list(kids)})'
+
+    return go(node)
+
+
 def malformed_specs(rng, n):
-    """structures outside the model's well-formedness: the library must refuse them (BiogemeError)
-    or else still behave as the property says (judged by the oracle on the name-based reading)."""
-    out = []
+    """pairs (kind, expected, spec): `dup` = two different Controller objects bear one name somewhere
+    in the formula (must be refused with BiogemeError); `shared` = the twin structure in which the
+    catalogs share ONE controller object (must stay accepted)."""
     x, y, b1, b2 = ({'t': 'var', 'n': 'x'}, {'t': 'var', 'n': 'y'},
-                    {'t': 'beta', 'n': 'b1', 'v': 0}, {'t': 'beta', 'n': 'b2', 'v': 0})
+                    {'t': 'beta', 'n': 'b1', 'fixed': False, 'v': 1}, {'t': 'beta', 'n': 'b2', 'fixed': False, 'v': -1})
     lg = {'t': 'un', 'op': 'Log', 'k': [x]}
-    # two catalogs with the same name, each with its own (default) controller of that name
-    out.append(('duplicate-controller-name', {
-        'controllers': {}, 'helpers': [],
-        'formula': {'t': 'bin', 'op': 'Times', 'k': [
-            {'t': 'cat', 'name': 'c', 'ctrl': None, 'm': [['lin', x], ['log', lg]]},
-            {'t': 'cat', 'name': 'c', 'ctrl': None, 'm': [['lin', b1], ['log', b2]]}]}}))
-    # a catalog nested in a catalog of the same name (own controllers)
-    out.append(('duplicate-controller-name', {
-        'controllers': {}, 'helpers': [],
-        'formula': {'t': 'cat', 'name': 'c', 'ctrl': None, 'm': [
-            ['u', {'t': 'cat', 'name': 'c', 'ctrl': None, 'm': [['u', x], ['v', y]]}], ['v', b1]]}}))
-    # explicit second Controller object with a used name
-    out.append(('duplicate-controller-name', {
-        'controllers': {'g': ['p', 'q']}, 'helpers': [],
-        'formula': {'t': 'bin', 'op': 'Plus', 'k': [
-            {'t': 'cat', 'name': 'k1', 'ctrl': 'g', 'm': [['p', x], ['q', y]]},
-            {'t': 'cat', 'name': 'k2', 'ctrl': 'g', 'fresh_ctrl': True, 'm': [['p', b1], ['q', b2]]}]}}))
-    for _ in range(n):
+    leaves = [x, y, b1, b2, lg, {'t': 'num', 'v': 2}]
+
+    def members(names, pool):
+        return [[nm, rng.choice(pool)] for nm in names]
+
+    def pair(mode, names, cname):
+        """two catalogs whose controllers are both called cname"""
+        if mode == 'default':       # same catalog name, each with its own default controller
+            a = {'t': 'cat', 'name': cname, 'ctrl': None, 'm': members(names, leaves)}
+            b = {'t': 'cat', 'name': cname, 'ctrl': None, 'm': members(names, leaves)}
+            ctrls = {}
+        elif mode == 'fresh':       # an explicit controller and a second object created with its name
+            a = {'t': 'cat', 'name': 'k1', 'ctrl': cname, 'm': members(names, leaves)}
+            b = {'t': 'cat', 'name': 'k2', 'ctrl': cname, 'fresh_ctrl': True, 'm': members(names, leaves)}
+            ctrls = {cname: names}
+        elif mode == 'default-vs-explicit':   # a catalog named like an explicit controller
+            a = {'t': 'cat', 'name': 'k1', 'ctrl': cname, 'm': members(names, leaves)}
+            b = {'t': 'cat', 'name': cname, 'ctrl': None, 'm': members(names, leaves)}
+            ctrls = {cname: names}
+        else:                       # 'shared': ONE controller object, two catalogs
+            a = {'t': 'cat', 'name': 'k1', 'ctrl': cname, 'm': members(names, leaves)}
+            b = {'t': 'cat', 'name': rng.choice(['k2', 'k1']), 'ctrl': cname, 'm': members(names, leaves)}
+            ctrls = {cname: names}
+        return a, b, ctrls
+
+    def wrap(n):
+        k = rng.random()
+        if k < 0.4:
+            return n
+        if k < 0.6:
+            return {'t': 'un', 'op': rng.choice(UNOPS), 'k': [n]}
+        if k < 0.7:
+            return {'t': 'powc', 'c': 2, 'k': [n]}
+        return {'t': 'bin', 'op': rng.choice(BINOPS), 'k': rng.sample([n, rng.choice(leaves)], 2)}
+
+    def placements(a, b):
+        out = []
+        for op in BINOPS:                                   # the two operands of every operator
+            out.append((f'operands-{op}', {'t': 'bin', 'op': op, 'k': [a, b]}))
+        out.append(('multsum', {'t': 'msum', 'k': rng.sample([a, x, b, b1], 4)}))
+        out.append(('elem-key-value', {'t': 'elem', 'keys': [1, 2], 'key': a, 'k': [y, b]}))
+        out.append(('elem-values', {'t': 'elem', 'keys': [1, 2], 'key': x, 'k': [a, b]}))
+        out.append(('loglogit-util-av', {'t': 'loglogit', 'keys': [1, 2], 'choice': y, 'util': [a, b1], 'av': [x, b]}))
+        out.append(('loglogit-choice-util', {'t': 'loglogit', 'keys': [1, 2], 'choice': a, 'util': [b1, b], 'av': None}))
+        out.append(('deep', {'t': 'bin', 'op': 'Plus', 'k': [wrap(wrap(a)), wrap(wrap(b))]}))
+        return out
+
+    def nest(a, b, k):
+        """b inside member k of a (possibly under operators)"""
+        a2 = {**a, 'm': [[nm, (wrap(b) if i == k else m)] for i, (nm, m) in enumerate(a['m'])]}
+        return a2
+
+    specs = []
+    cnames = ['c', 'k', 'alt', 'a b', 'G']
+    for mode in ('default', 'fresh', 'default-vs-explicit', 'shared'):
         names = rng.sample(['lin', 'log', 'sq', 'A'], rng.randint(2, 3))
-        c = rng.choice(['c', 'k', 'alt'])
-        m1 = [[nm, rng.choice([x, y, lg])] for nm in names]
-        m2 = [[nm, rng.choice([b1, b2])] for nm in names]
-        out.append(('duplicate-controller-name', {
-            'controllers': {}, 'helpers': [],
-            'formula': {'t': 'bin', 'op': rng.choice(['Plus', 'Times', 'Minus']), 'k': [
-                {'t': 'cat', 'name': c, 'ctrl': None, 'm': m1}, {'t': 'cat', 'name': c, 'ctrl': None, 'm': m2}]}}))
-    return out
+        cname = rng.choice(cnames)
+        a, b, ctrls = pair(mode, names, cname)
+        kind = 'shared' if mode == 'shared' else 'dup'
+        allp = placements(a, b)
+        for k in range(len(names)):
+            allp.append((f'nested-member{k}', wrap(nest(a, b, k))))
+            # the two controllers in two (unselected) branches of a third catalog
+        third = {'t': 'cat', 'name': 'outer', 'ctrl': None, 'm': [['u', wrap(a)], ['v', x], ['w', wrap(b)]]}
+        allp.append(('branches-of-a-third-catalog', wrap(third)))
+        for pname, f in allp:
+            specs.append((kind, f'{mode}/{pname}', {'controllers': ctrls, 'helpers': [], 'formula': f}))
+    # through the helper generators
+    seg = lambda g: {'kind': 'seg', 'gname': g, 'betas': [['asc', False, 0], ['b_time', False, 0]],
+                     'segs': [{'var': 'inc', 'map': [[1, 'low'], [2, 'high']], 'ref': None}], 'max': 1}
+    gas = lambda g, with_segs: {'kind': 'gas', 'gname': g, 'betas': [['b_cost', False, 0]], 'alts': ['car', 'bus'], 'none': False,
+                                'segs': seg(g)['segs'] if with_segs else [], 'max': 1}
+    s0, s1 = {'t': 'seg', 'h': 0, 'b': 0}, {'t': 'seg', 'h': 1, 'b': 1}
+    specs.append(('dup', 'helpers/two-segmentation-calls-one-name',
+                  {'controllers': {}, 'helpers': [seg('G'), seg('G')], 'formula': {'t': 'bin', 'op': 'Plus', 'k': [s0, s1]}}))
+    specs.append(('shared', 'helpers/one-segmentation-call-two-catalogs',
+                  {'controllers': {}, 'helpers': [seg('G')], 'formula': {'t': 'bin', 'op': 'Plus', 'k': [s0, {'t': 'seg', 'h': 0, 'b': 1}]}}))
+    specs.append(('dup', 'helpers/segmentation-and-altspec-one-name',
+                  {'controllers': {}, 'helpers': [seg('G'), gas('G', True)],
+                   'formula': {'t': 'bin', 'op': 'Times', 'k': [s0, {'t': 'gas', 'h': 1, 'b': 0, 'alt': 'car'}]}}))
+    specs.append(('dup', 'helpers/two-altspec-calls-one-name',
+                  {'controllers': {}, 'helpers': [gas('G', False), gas('G', False)],
+                   'formula': {'t': 'msum', 'k': [{'t': 'gas', 'h': 0, 'b': 0, 'alt': 'car'}, {'t': 'gas', 'h': 1, 'b': 0, 'alt': 'bus'}]}}))
+    specs.append(('shared', 'helpers/one-altspec-call-two-alternatives',
+                  {'controllers': {}, 'helpers': [gas('G', True)],
+                   'formula': {'t': 'msum', 'k': [{'t': 'gas', 'h': 0, 'b': 0, 'alt': 'car'}, {'t': 'gas', 'h': 0, 'b': 0, 'alt': 'bus'}]}}))
+    specs.append(('dup', 'helpers/catalog-named-like-the-helper-controller',
+                  {'controllers': {}, 'helpers': [seg('G')],
+                   'formula': {'t': 'bin', 'op': 'Minus', 'k': [s0, {'t': 'cat', 'name': 'G', 'ctrl': None, 'm': [['no_seg', x], ['inc', y]]}]}}))
+    specs.append(('dup', 'helpers/catalog-named-like-the-altspec-controller',
+                  {'controllers': {}, 'helpers': [gas('G', False)],
+                   'formula': {'t': 'cat', 'name': 'G_gen_altspec', 'ctrl': None,
+                               'm': [['generic', {'t': 'gas', 'h': 0, 'b': 0, 'alt': 'car'}], ['altspec', x]]}}))
+    specs.append(('shared', 'helpers/catalog-attached-to-the-helper-controller',
+                  {'controllers': {}, 'helpers': [seg('G')], 'attach_helper': True,
+                   'formula': {'t': 'bin', 'op': 'Minus', 'k': [s0, {'t': 'seg', 'h': 0, 'b': 1}]}}))
+    if len(specs) > n:
+        keep = [s for s in specs if s[1].startswith('helpers/')]
+        rest = [s for s in specs if not s[1].startswith('helpers/')]
+        specs = keep + rng.sample(rest, max(0, n - len(keep)))
+    return specs
 
 
 def stream_malformed(ctx):
-    st = ctx.stream('malformed', 'structures with two Controller objects of one name (same-named catalogs, a catalog nested '
-                    'in a same-named catalog): must be refused, or every configuration must still yield the hand-written '
-                    'formula; oracle only; non-trivial = always')
+    st = ctx.stream('malformed', 'regression of cd61563: two different Controller objects of one name (same-named catalogs with default '
+                    'controllers, a second explicit Controller, a catalog named like an explicit / helper controller, two helper calls '
+                    'with one generic name) in the two operands of every operator, in bioMultSum / Elem / LogLogit slots, nested in '
+                    'any member, in two branches of a third catalog, under wrappers: must be refused with BiogemeError; the twin '
+                    'structures sharing ONE controller object must be accepted with the product of configurations; the model '
+                    'all_controllers is evaluated on the controller-object skeleton; non-trivial = always')
     rng = ctx.sub_rng('malformed')
-    specs = malformed_specs(rng, ctx.n(6, 40))
-    cases = []
-    for kind, spec in specs:
-        x = expand(spec['formula'], spec)
-        try:
-            ctrls = controllers_of(x)
-        except ValueError:
-            ctrls = None
-        configure = []
-        if ctrls is not None:
-            for comb in itertools.product(*[s for _, s in ctrls]):
-                configure.append({'sels': [[n, s] for (n, _), s in zip(ctrls, comb)]})
-        cases.append({'spec': spec, 'configure': configure, 'iterate': 20, 'roundtrip': [], 'ops': None})
-    res = ctx.impl('c16_catalog.py', {'mode': 'structure', 'cases': cases})
-    for (kind, spec), c, r in zip(specs, cases, res):
-        st.record({'spec': spec})
-        if not r.get('built') or not r.get('central'):
-            if (r.get('exc') or (r.get('central_exc') or {}).get('exc')) != 'BiogemeError':
-                ctx.violation(f'C16/malformed/{kind}/unexpected-exception', 'malformed structure raised something else than BiogemeError',
-                              {'spec': spec}, 'BiogemeError or a consistent structure', r)
-            continue  # refused: fine
-        x = expand(spec['formula'], spec)
-        bad = None
-        for q, o in zip(c['configure'], r.get('configured', [])):
-            try:
-                hand = to_tree(hand_subst(x, dict((a, b) for a, b in q['sels'])))
-            except KeyError:
-                continue
-            if 'tree' not in o or o['tree'] != hand:
-                bad = (q, o, hand)
-                break
-        if bad is not None:
-            q, o, hand = bad
-            ctx.violation(f'C16/malformed/{kind}', 'two Controller objects with one name are accepted; selecting a configuration '
-                          'leaves one of the catalogs unsynchronised (the formula is not the one written out by hand)',
-                          {'spec': spec, 'configuration': q['sels']}, hand, o.get('tree', o),
-                          how='build witness.spec with lib/impl/c16_catalog.py, configure_catalogs(witness.configuration)')
+    specs = malformed_specs(rng, ctx.n(60, 400))
+    cases = [{'spec': spec, 'configure': [], 'iterate': 0, 'roundtrip': [], 'ops': None} for _, _, spec in specs]
+    B = max(1, (len(cases) + 15) // 16)
+    res = []
+    for out in ctx.impl_parallel('c16_catalog.py', [{'mode': 'structure', 'cases': cases[i:i + B]}
+                                                    for i in range(0, len(cases), B)]):
+        res += out
+    items, origin = [], []
+    for (kind, where, spec), r in zip(specs, res):
+        wit = {'spec': spec, 'where': where}
+        st.record(wit)
+        accepted = bool(r.get('built') and r.get('central'))
+        e = (r.get('central_exc') or {}).get('exc') or r.get('exc')
+        if not accepted and e != 'BiogemeError':
+            ctx.violation(f'C16/malformed/{kind}/unexpected-exception', f'{where}: raised {e} instead of BiogemeError', wit,
+                          'BiogemeError' if kind == 'dup' else 'accepted', r)
+            continue
+        if kind == 'dup' and accepted:
+            ctx.violation('C16/malformed/duplicate-controller-name-accepted',
+                          f'{where}: two different Controller objects with one name are accepted (only one of them is driven)',
+                          wit, 'BiogemeError when the central controller is built',
+                          {'controllers': r.get('controllers'), 'number': r.get('number')},
+                          how='build witness.spec with lib/impl/c16_catalog.py (mode structure)')
+        if kind == 'shared':
+            if not accepted:
+                ctx.violation('C16/malformed/shared-controller-refused',
+                              f'{where}: catalogs sharing ONE Controller object are refused', wit, 'accepted', r)
+            else:
+                ctrls = controllers_of(expand(spec['formula'], spec))
+                total = math.prod(len(s) for _, s in ctrls)
+                if r.get('number') != total or [c[0] for c in r.get('controllers', [])] != [n for n, _ in ctrls]:
+                    ctx.violation('C16/malformed/shared-controller-wrong-product',
+                                  f'{where}: shared controller: wrong controllers / number of configurations', wit,
+                                  {'controllers': ctrls, 'number': total},
+                                  {'controllers': r.get('controllers'), 'number': r.get('number')})
+        sk = skeleton(spec['formula'], spec)
+        names = coq_strs([c[0] for c in r.get('controllers', [])]) if accepted else '[]'
+        items.append(f'(match all_controllers {sk} with '
+                     f'| Some l => {"true" if accepted else "false"} && same_set (map fst l) {names} && nodupb (map fst l) '
+                     f'| None => {"false" if accepted else "true"} end)')
+        origin.append((wit, {'accepted': accepted, 'controllers': r.get('controllers'), 'exc': e}))
+    run_bool_items(ctx, st, 'malformed', items, origin, chunk=60)
 
 
 # =========================================================================== driver
@@ -1577,10 +1720,8 @@ def replay(ctx, path):
     r = ctx.impl('c16_catalog.py', {'mode': 'structure', 'cases': [case]})[0]
     bad = False
     if key.startswith('C16/malformed/'):
-        if r.get('built') and r.get('central'):
-            for q, o in zip(case['configure'], r.get('configured', [])):
-                hand = to_tree(hand_subst(x, dict((a, b) for a, b in q['sels'])))
-                bad = bad or o.get('tree') != hand
+        accepted = bool(r.get('built') and r.get('central'))
+        bad = (not accepted) if 'shared' in key else accepted
     else:
         if not r.get('built') or not r.get('central'):
             bad = True
